@@ -25,7 +25,17 @@ var (
 		"HTTP/1.1.1", "HTTP/1,1", "HTTP/x.1", "HTTP/1.-1", "HTTP/1.+1", "HTTPS/1.1", "HTTP/1.1/", "HTTP-1.1", "HTTP/1.a",
 		"HTTP/1.\x7f", "HTTP/1./", "1.1", "HTTP/", "HTTP/1.1\r", "HTTP/1.1\r\r", "HTTP/1.1\t", "HTTP/1.1 ", "HTTP/1.1 x", "HTTP/1.0 HTTP/1.1"}
 	// OpenVersions: leading zeros and numbers too long for an int.
-	OpenVersions = []string{"HTTP/1.01", "HTTP/01.1", "HTTP/1.00", "HTTP/001.001", "HTTP/1.99999999999999999999", "HTTP/18446744073709551617.1"}
+	// (a minor number too long for an int is mathematically a later 1.x, which
+	// the unchanged library refuses as malformed: left open)
+	OpenVersions = []string{"HTTP/1.01", "HTTP/01.1", "HTTP/1.00", "HTTP/001.001", "HTTP/1.99999999999999999999",
+		"HTTP/1.18446744073709551617", "HTTP/1.36893488147419103233", "HTTP/1.9223372036854775809", "HTTP/1.184467440737095516161", "HTTP/1.018446744073709551617", "HTTP/1.4294967297"}
+	// NotOneVersions: the major numeral is not 1 but is congruent to 1 modulo
+	// 2^64 or 2^63 (k*2^64+1 for k = 1, 2, 3, 10; 2^63+1), or 2^32+1, with and
+	// without leading zeros and huge minors: must-fail for ws.Upgrader.
+	NotOneVersions = []string{"HTTP/18446744073709551617.1", "HTTP/36893488147419103233.1", "HTTP/55340232221128654849.1", "HTTP/184467440737095516161.1",
+		"HTTP/9223372036854775809.1", "HTTP/018446744073709551617.1", "HTTP/0018446744073709551617.01", "HTTP/4294967297.1", "HTTP/04294967297.1",
+		"HTTP/18446744073709551617.18446744073709551617", "HTTP/18446744073709551617.2", "HTTP/36893488147419103233.10", "HTTP/02.1", "HTTP/00.1", "HTTP/010.1",
+		"HTTP/99999999999999999999.1", "HTTP/9223372036854775808.1", "HTTP/18446744073709551616.1", "HTTP/1000000001.1"}
 
 	// SpacedTargets make the request line something else than
 	// `METHOD SP target SP version`: more than three fields, doubled, leading
@@ -507,6 +517,9 @@ func GenRequest(t *rapid.T, label string, plan Plan) *Request {
 			}
 		case k < 3:
 			r.Version = rapid.SampledFrom(LowVersions).Draw(t, label+".version")
+			if rapid.IntRange(0, 2).Draw(t, label+".notone") == 0 {
+				r.Version = rapid.SampledFrom(NotOneVersions).Draw(t, label+".version")
+			}
 		case k < 7:
 			r.Version = rapid.SampledFrom(MalformedVersions).Draw(t, label+".version")
 		case k == 7: // HTTP/1.<one non-digit byte>, HTTP/<c>.1, HTTP/1.1<c>
